@@ -1344,7 +1344,11 @@ def rule_R24_inline(unit, rel, text, ctx):
                         amp = '&mut '
                     flip = getattr(unit, 'inline_flip', False)
                     simple = re.match(r'^[A-Za-z_]\w*$', recv) is not None
-                    if recv == 'self' or recv.startswith('&') or (simple and not flip) or (not simple and flip):
+                    if recv == 'self':
+                        # the helper is a method of the same object: its `self` is the caller's `self` (the substitutions of the
+                        # block that hosts the call then apply to the inlined text as well)
+                        binds.append((None, None, None))
+                    elif recv.startswith('&') or (simple and not flip) or (not simple and flip):
                         # a plain variable is taken to hold a reference already (typed `&mut _` binding = reborrow)
                         binds.append(('vx_self', (amp.strip() + ' _') if amp else None, recv))
                     else:
@@ -1381,7 +1385,17 @@ def rule_R24_inline(unit, rel, text, ctx):
                 # `self` inside the helper is the receiver
                 bm2 = code_mask(body)
                 body = ''.join(body[k] for k in range(len(body)))
-                body = re.sub(r'(?<![\w.])self\b', 'vx_self', body)
+                if not any(b_[0] is None for b_ in binds):
+                    body = re.sub(r'(?<![\w.])self\b', 'vx_self', body)
+                else:
+                    # the block that hosts the call renames parts of `self` (`self.sink.` => `sink.` ...): the same renamings
+                    # apply to the helper's text, which talks about the same object
+                    for a_, b_, _opt in getattr(unit, 'block_substs', []) or []:
+                        if '$' in a_ or 'self' not in a_:
+                            continue
+                        rx_ = re.compile(r'\s*'.join(re.escape(t_) for t_ in re.findall(r'\w+|[^\w\s]', a_)))
+                        body = rx_.sub(lambda m_: b_, body)
+                binds = [b_ for b_ in binds if b_[0] is not None]
                 owner_ty = None
                 if owner is not None:
                     om = re.match(r'^impl(?:\s*<[^>]*>)?\s+(?:[\w:<>, ]+\s+for\s+)?([\w:]+)', owner.header)
@@ -2393,7 +2407,11 @@ def emit_block(unit, loc, dlines, tmpl_where):
     text = 'fn %s%s { %s\n%s }' % (name, sig, blk, fall)
     unit.rule_log.append({'rule': 'R9', 'before': 'statements `%s` .. `%s` of %s' % (a_txt[:40], b_txt[:40], ' :: '.join(path)),
                           'after': 'fn %s%s { <verbatim> %s }' % (name, sig, fall), 'where': rel})
-    emit_fn_text(unit, rel, path + ['block ' + name], name, text, line0, line_of(src, it.body_start + mb.end()), rest, tmpl_where)
+    unit.block_substs = substs
+    try:
+        emit_fn_text(unit, rel, path + ['block ' + name], name, text, line0, line_of(src, it.body_start + mb.end()), rest, tmpl_where)
+    finally:
+        unit.block_substs = []
 
 
 def emit_fn_text(unit, rel, path, fn_id, text, line0, end_line, dlines, tmpl_where):
